@@ -15,7 +15,7 @@ RNext == /\ k <= Len(Scheds[j])
          /\ k' = k + 1 /\ j' = j
 RSpec == RInit /\ [][RNext]_<<vars, j, k>>
 CfgJson == [NVB |-> NVB, InitLog |-> InitLog, FoUuid |-> FoUuid, AutoReset |-> AutoReset, Finite |-> Finite,
-            AutoCkpt |-> AutoCkpt, Info0 |-> Info0, Slots |-> Slots, ReadOnly |-> ReadOnly, HookScrapes |-> HookScrapes]
+            AutoCkpt |-> AutoCkpt, Info0 |-> Info0, Slots |-> Slots, ReadOnly |-> ReadOnly, HookScrapes |-> HookScrapes, HoldCb |-> HoldCb]
 Stuck == k <= Len(Scheds[j]) /\ ~ENABLED RNext
 DumpSched == (k > Len(Scheds[j]) \/ Stuck) =>
                PrintT(<<"SCHED", ToJson([cfg |-> CfgJson, steps |-> hist, j |-> j, complete |-> k > Len(Scheds[j])])>>)
